@@ -270,14 +270,19 @@ Tamper(c, i, op, v) ==
   /\ LET fr == net[c].s2c[i]
          g  == CASE op = "side"  -> [fr EXCEPT !.x = v]
                  [] op = "phase" -> [fr EXCEPT !.y = v]
-                 [] op = "flip"  -> [fr EXCEPT !.z = Junk("flip")] IN
+                 \* a flipped bit: ciphertexts no longer authenticate; a PAKE body either stops parsing ("junk"),
+                 \* or still parses and is another group element ("elem") or no group element at all ("bad")
+                 [] op = "flip"  -> [fr EXCEPT !.z = IF fr.z.k = "pake" /\ v = "elem" THEN Pake("flipped:" \o fr.z.key, "F")     \* nobody's message any more
+                                                     ELSE IF fr.z.k = "pake" /\ v = "bad" THEN Body("pakeinv", "-", fr.z.side, "-", "-")
+                                                     ELSE Junk("flip")] IN
+     /\ (op = "flip" /\ v # "junk") => fr.z.k = "pake"
      /\ g # fr
      /\ net' = [net EXCEPT ![c].s2c[i] = g]
   /\ bud' = [bud EXCEPT !.tamper = @ - 1]
   /\ lastAct' = Act("Tamper", c, ToString(i), op \o ":" \o v)
   /\ UNCHANGED <<cs, srv>>
 
-TamperValues(op) == CASE op = "side" -> Sides [] op = "phase" -> {"pake", "version", "0", "1"} [] OTHER -> {"-"}
+TamperValues(op) == CASE op = "side" -> Sides [] op = "phase" -> {"pake", "version", "0", "1"} [] OTHER -> {"junk", "elem", "bad"}
 
 Next ==
   \/ \E c \in Clients :
